@@ -306,7 +306,11 @@ def run(r):
     asp = r.A.summarize_source(SPEC, "args", "pyrepseq.io")
     cls_only = lambda t: "raise " + (strip(strip(t)[1])[1][1] if head(strip(t)) == "raise" and head(strip(strip(t)[1])) == "call" else "?") if head(strip(t)) == "raise" else "value"
     m, rows = compare_trees(lift_ite(strip_all(subst(s.ret, pcan))), lift_ite(strip_all(subst(asp.ret, canon_params(asp)))), lambda a, b: cls_only(a) == cls_only(b))
-    rep.ob("C18-ARG", q, not m, "df and df_old are mutually exclusive and one of them is required (ValueError before any use)", where_of(r.P, s.func, s.func.node),
+    if m and all(cls_only(a_) == "raise builtins.AssertionError" for _, a_, _ in m):
+        # the only deviating paths are failing assert statements: whether an assertion can fail is outside this analysis
+        rep.require(False, f"{q}: argument handling equals the specification on every run on which the function's own assert statements hold; cannot decide [C18-ARG]")
+    else:
+      rep.ob("C18-ARG", q, not m, "df and df_old are mutually exclusive and one of them is required (ValueError before any use)", where_of(r.P, s.func, s.func.node),
            expected="ValueError iff both or neither are given", found=(f"differs when {m[0][0]}: {cls_only(m[0][1])} vs {cls_only(m[0][2])}" if m else "equivalent"), key="argument errors")
     # result is the copied (and renamed) table
     resl = [leaf for g, leaf in leaves(lift_ite(strip_all(s.ret))) if head(strip(leaf)) != "raise"]
